@@ -168,3 +168,43 @@ Print Assumptions C18_filter_reads_back.
 Theorem C18_logfile_reads_back : forall name_bz2 recs, logfile_written name_bz2 recs = Some recs.
 Proof. exact logfile_reads_back. Qed.
 Print Assumptions C18_logfile_reads_back.
+
+(* "... one unrepresentable event never prevents other events or later incidents from being recorded", at the grain of
+   single reactor iterations (lib/LogBuf.v `iterate`: several calls before the eventual queue runs, an observer calling
+   from inside the queue's batch, calls due in the instant of the trailing timer).
+   A trigger emitted while NO reporter is recording -- in particular between stop_recording and finished_recording of the
+   previous incident, whatever is still being closed (f_closing) -- starts an incident of its own.  Rests on the
+   translated fact active_cleared_at = AtStop (the reporter stops claiming to be active when it unsubscribes). *)
+Theorem C18_trigger_in_window_recorded : forall c f fac lvl ok rp id,
+  c_fault c = NoFault -> c_qual c = true -> i_rep (s_inc (f_s f)) = None ->
+  incident_level <= lvl -> cmpZ threshold_drop_cmp lvl (threshold_of (s_thr (f_s f)) fac) = false ->
+  0 <= limit_of (s_sizes (f_s f)) fac lvl ->
+  let e := mkEv (s_seq (f_s f) + 1) fac lvl ok id in
+  let '(f', r, n) := fcall c f (Msg None fac lvl ok rp id) in
+  r = Some (e_num e) /\ f_closing f' = f_closing f /\ n = [] /\
+  (c_trailing c = true -> exists lines, i_rep (s_inc (f_s f')) = Some (mkRep e lines TRAILING_EVENT_LIMIT true)) /\
+  (c_trailing c = false -> exists lines, i_files (s_inc (f_s f')) = i_files (s_inc (f_s f)) ++ [e :: lines]).
+Proof. exact trigger_in_window_recorded. Qed.
+Print Assumptions C18_trigger_in_window_recorded.
+
+(* What the code does with a trigger-level event emitted WHILE a reporter is recording (by design: new_trigger is the
+   documented overlap hook): it does not start an incident, it is an ordinary trailing event of the running incident ... *)
+Theorem C18_trigger_absorbed_by_running_incident : forall c b i e r,
+  i_rep i = Some r ->
+  declare_incident c b i e = (mkInc (i_rep i) (i_zombie i) (i_declared i + 1) (i_recorded i) (i_files i) (i_junk i), false).
+Proof. exact absorbed_by_running_incident. Qed.
+Print Assumptions C18_trigger_absorbed_by_running_incident.
+
+(* ... and as such subject to the reporter's documented limits (TRAILING_EVENT_LIMIT events, TRAILING_DELAY seconds): two
+   histories, replayed on the real code, in which such an event is dropped: (1) it is the 101st event after the first
+   trigger; (2) it is emitted by a call that runs just before the trailing timer in the same reactor iteration.  These
+   are NOT violations of C18 (the property speaks of an incident's OWN trigger and of what was buffered). *)
+Theorem C18_absorbed_trigger_subject_to_limits :
+  (exists its, let f := fst (iterations (mkCfg true true NoFault) fine_init its) in
+               f_closing f = [] /\ i_rep (s_inc (f_s f)) = None /\ i_declared (s_inc (f_s f)) = 2 /\
+               i_recorded (s_inc (f_s f)) = 1 /\ in_some_file (s_inc (f_s f)) 101 = false) /\
+  (exists its, let f := fst (iterations (mkCfg true true NoFault) fine_init its) in
+               f_closing f = [] /\ i_rep (s_inc (f_s f)) = None /\ i_declared (s_inc (f_s f)) = 2 /\
+               i_recorded (s_inc (f_s f)) = 1 /\ in_some_file (s_inc (f_s f)) 1 = false).
+Proof. exact absorbed_trigger_subject_to_limits. Qed.
+Print Assumptions C18_absorbed_trigger_subject_to_limits.
